@@ -15,7 +15,7 @@ func newSvg(table tables.SVG) (svg, error) {
 	out := make(svg, len(table.SVGDocumentList.DocumentRecords))
 	for i, rec := range table.SVGDocumentList.DocumentRecords {
 		start, end := rec.SvgDocOffset, rec.SvgDocOffset+tables.Offset32(rec.SvgDocLength)
-		if len(rawData) < int(end) {
+		if end < start || len(rawData) < int(end) {
 			return nil, fmt.Errorf("invalid svg table (EOF: expected %d, got %d)", end, len(rawData))
 		}
 		out[i] = svgDocument{
